@@ -215,7 +215,7 @@ def main(prop, argv):
     seed = int(os.environ.get("VERIF_SEED", "1"))
     t0 = time.time()
     pid = prop.ID
-    work = os.path.join(ROOT, "work", pid)
+    work = os.path.join(ROOT, "work", pid + ("-" + os.environ["VERIF_BUILD_TAG"] if os.environ.get("VERIF_BUILD_TAG") else ""))
     os.makedirs(work, exist_ok=True)
     os.makedirs(os.path.join(ROOT, "evidence"), exist_ok=True)
     violations = []      # (what, replay_path, no_failing_input)
@@ -339,6 +339,8 @@ def main(prop, argv):
     if args.replay:
         for (c, _), (impl, verd) in zip(cases, res):
             print("case:    " + c); print("impl:    " + impl); print("verdict: " + verd)
+    elif os.environ.get("VERIF_NO_EVIDENCE"):
+        pass
     else:
         json.dump(ev, open(os.path.join(ROOT, "evidence", pid + ".json"), "w"), indent=1)
     for l in known_lines: print(l)
